@@ -19,8 +19,9 @@ Not modelled (the harness keeps such programs out of the correspondence and coun
 macro-expanded nodes (`VisitUnExpanded`), type bindings, type annotations (`visit_ast_type`),
 record patterns, `do`.
 
-The descent picks an arbitrary list element, so the visitor is written with explicit fuel
-(`Out.fuel` = fuel exhausted; the driver passes the node count, and no theorem depends on it).
+Every `visit_*` call of the Rust code is a tail call, so the visitor is written as a step function
+(`step`) iterated by `run` with explicit fuel; `findAt` runs it with fuel = height of the tree, which
+is always enough (`Proofs.fuel_sufficient`), so `Out.fuel` never shows up.
 -/
 namespace GluonModel.FindPos
 
@@ -183,12 +184,14 @@ inductive Found where
   deriving DecidableEq, Repr
 
 /-- `FindVisitor` (lib.rs:232): `enclosing`/`near` have the LAST pushed element at the head;
-    `scope` = symbols inserted into `Suggest.stack`, last at the head. -/
+    `scope` = symbols inserted into `Suggest.stack`, last at the head, each with the span of the
+    construct whose hook registered it (lambda / let expression / selected binding / match
+    alternative) — the span is bookkeeping for the theorems, the code stores the symbol only. -/
 structure St where
   found : Found
   enclosing : List M
   near : List M
-  scope : List Nat
+  scope : List (Nat × Span)
   deriving Repr
 
 inductive Out where
@@ -209,7 +212,14 @@ def setFound (st : St) (f : Found) : St := { st with found := f }
 def foundIfAt (m : M) (pos : Nat) (st : St) : St :=
   setFound st (if m.span.containment pos = .eq then .found m else .empty)
 
-def addScope (st : St) (ids : List Nat) : St := { st with scope := ids.reverse ++ st.scope }
+def addScope (st : St) (sp : Span) (ids : List Nat) : St :=
+  { st with scope := (ids.map (fun i => (i, sp))).reverse ++ st.scope }
+
+/-- The hook calls `on_found.on_ident` / `on_pattern` of a construct with span `sp`.
+    `fx = false`: the code as it is (unconditional). `fx = true`: the REPAIRED rule — the hooks
+    run only when the construct's span contains the position. -/
+def hook (fx : Bool) (pos : Nat) (st : St) (sp : Span) (ids : List Nat) : St :=
+  if fx && sp.containment pos != .eq then st else addScope st sp ids
 
 /-- `Variant` (lib.rs:326) without `Type`. -/
 inductive Variant where
@@ -235,107 +245,130 @@ def recordVariants (fields : List Field) (base : Option Expr) : List Variant :=
 def bindVariants (b : LBind) : List Variant :=
   Variant.pat b.name :: (b.args.map Variant.ident ++ [Variant.expr b.expr])
 
-mutual
-/-- lib.rs:410 `visit_pattern`. -/
-def visitPat (pos : Nat) : Nat → Pat → St → Out
-  | 0, _, _ => .fuel
-  | fuel + 1, p, st =>
-    let st := enter ⟨.pattern, p.span, .plain⟩ pos st
+/-- What the visitor is looking at: `visit_expr`, `visit_pattern`, or `visit_any` after its
+    selection. -/
+inductive Node where
+  | expr (e : Expr)
+  | pat (p : Pat)
+  | variant (v : Option Variant)
+
+/-- One call of a `visit_*` function: it either finishes or makes exactly one (tail) call. -/
+inductive Next where
+  | done (o : Out)
+  | go (n : Node) (st : St)
+
+/-- The body of `visit_pattern` (lib.rs:410), `visit_any` after the selection (lib.rs:358) and
+    `visit_expr` (lib.rs:505; nodes inside the source span, i.e. not macro expanded), up to the
+    recursive call. -/
+def step (fx : Bool) (pos : Nat) : Node → St → Next
+  | .pat p, st0 =>
+    let st := enter ⟨.pattern, p.span, .plain⟩ pos st0
     match p with
-    | .as_ _ _ q => visitPat pos fuel q st
+    | .as_ _ _ q => .go (.pat q) st
     | .ctor sp idLen args =>
       if (Span.mk sp.lo (sp.lo + idLen)).containment pos = .eq then
-        .ok (setFound st (.found ⟨.pattern, sp, .plain⟩))
+        .done (.ok (setFound st (.found ⟨.pattern, sp, .plain⟩)))
       else match (selectSpanned Pat.span pos args).2 with
-        | some q => visitPat pos fuel q st
-        | none => .ok (setFound st .empty)
+        | some q => .go (.pat q) st
+        | none => .done (.ok (setFound st .empty))
     | .tuple sp elems =>
-      -- lib.rs:491-503 (since fix 53580fe the unit pattern `()` is treated like a leaf; before,
+      -- lib.rs:491-503 (since the unit-pattern fix `()` is treated like a leaf; before,
       -- `field.unwrap()` panicked here)
       match (selectSpanned Pat.span pos elems).2 with
-      | some q => visitPat pos fuel q st
-      | none => .ok (foundIfAt ⟨.pattern, sp, .plain⟩ pos st)
-    | .leaf sp _ => .ok (foundIfAt ⟨.pattern, sp, .plain⟩ pos st)
-
-/-- lib.rs:346 `visit_any` after the selection. -/
-def visitVariant (pos : Nat) : Nat → Option Variant → St → Out
-  | 0, _, _ => .fuel
-  | fuel + 1, v, st =>
+      | some q => .go (.pat q) st
+      | none => .done (.ok (foundIfAt ⟨.pattern, sp, .plain⟩ pos st))
+    | .leaf sp _ => .done (.ok (foundIfAt ⟨.pattern, sp, .plain⟩ pos st))
+  | .variant v, st =>
     match v with
-    | some (.pat p) => visitPat pos fuel p st
-    | some (.ident a) => .ok (foundIfAt ⟨.ident, a.sp, .plain⟩ pos st)
-    | some (.field sp) => .ok (foundIfAt ⟨.ident, sp, .plain⟩ pos st)
-    | some (.expr e) => visitExpr pos fuel e st
-    | none => .ok (setFound st .empty)
-
-/-- lib.rs:505 `visit_expr` (nodes inside the source span, i.e. not macro expanded). -/
-def visitExpr (pos : Nat) : Nat → Expr → St → Out
-  | 0, _, _ => .fuel
-  | fuel + 1, cur, st =>
-    let st := enter cur.m pos st
+    | some (.pat p) => .go (.pat p) st
+    | some (.ident a) => .done (.ok (foundIfAt ⟨.ident, a.sp, .plain⟩ pos st))
+    | some (.field sp) => .done (.ok (foundIfAt ⟨.ident, sp, .plain⟩ pos st))
+    | some (.expr e) => .go (.expr e) st
+    | none => .done (.ok (setFound st .empty))
+  | .expr cur, st0 =>
+    let st := enter cur.m pos st0
     match cur with
-    | .leaf _ => .ok (foundIfAt cur.m pos st)
-    | .emptyNode _ => .ok (setFound st (.found cur.m))
+    | .leaf _ => .done (.ok (foundIfAt cur.m pos st))
+    | .emptyNode _ => .done (.ok (setFound st (.found cur.m)))
     | .one _ cs =>
       -- lib.rs:338 `visit_one`
       match (selectSpanned Expr.span pos cs).2 with
-      | some c => visitExpr pos fuel c st
-      | none => .panic
+      | some c => .go (.expr c) st
+      | none => .done .panic
     | .matchE _ scrut alts =>
       -- lib.rs:535-558
       let items : List (Expr ⊕ Alt) := Sum.inl scrut :: alts.map Sum.inr
       let sp : Expr ⊕ Alt → Span := fun x => match x with | .inl e => e.span | .inr a => a.span
       match (selectSpanned sp pos items).2 with
-      | none => .panic
-      | some (.inl e) => visitExpr pos fuel e { st with enclosing := e.m :: st.enclosing }
+      | none => .done .panic
+      | some (.inl e) => .go (.expr e) { st with enclosing := e.m :: st.enclosing }
       | some (.inr a) =>
-        let st := addScope st a.pat.binders
+        let st := hook fx pos st a.span a.pat.binders
         let items2 : List (Pat ⊕ Expr) := [Sum.inl a.pat, Sum.inr a.expr]
         let sp2 : Pat ⊕ Expr → Span := fun x => match x with | .inl p => p.span | .inr e => e.span
         match (selectSpanned sp2 pos items2).2 with
-        | none => .panic
-        | some (.inl p) => visitPat pos fuel p st
-        | some (.inr e) => visitExpr pos fuel e st
+        | none => .done .panic
+        | some (.inl p) => .go (.pat p) st
+        | some (.inr e) => .go (.expr e) st
     | .infix _ lhs op rhs =>
       -- lib.rs:560-578
       match lhs.span.containment pos, rhs.span.containment pos with
-      | .gt, .lt => .ok (setFound st (.found ⟨.ident, op, .plain⟩))
-      | _, .gt => visitExpr pos fuel rhs st
-      | _, .eq => visitExpr pos fuel rhs st
-      | _, _ => visitExpr pos fuel lhs st
-    | .letb _ isRec binds body =>
+      | .gt, .lt => .done (.ok (setFound st (.found ⟨.ident, op, .plain⟩)))
+      | _, .gt => .go (.expr rhs) st
+      | _, .eq => .go (.expr rhs) st
+      | _, _ => .go (.expr lhs) st
+    | .letb sp isRec binds body =>
       -- lib.rs:579-608
-      let st := if isRec then addScope st (binds.flatMap (fun b => b.name.binders)) else st
+      let st := if isRec then hook fx pos st sp (binds.flatMap (fun b => b.name.binders)) else st
       match selectSpanned LBind.span pos binds with
       | (false, some b) =>
-        let st := addScope st (b.args.map Arg.id)
-        visitVariant pos fuel (selectSpanned Variant.span pos (bindVariants b)).2 st
+        let st := hook fx pos st b.span (b.args.map Arg.id)
+        .go (.variant (selectSpanned Variant.span pos (bindVariants b)).2) st
       | _ =>
-        let st := if isRec then st else addScope st (binds.flatMap (fun b => b.name.binders))
-        visitExpr pos fuel body st
+        let st := if isRec then st else hook fx pos st sp (binds.flatMap (fun b => b.name.binders))
+        .go (.expr body) st
     | .proj sp e =>
       -- lib.rs:643-650
       if e.span.containment pos = .gt then
-        .ok (setFound { st with enclosing := cur.m :: st.enclosing } (.found ⟨.ident, sp, .plain⟩))
-      else visitExpr pos fuel e st
+        .done (.ok (setFound { st with enclosing := cur.m :: st.enclosing } (.found ⟨.ident, sp, .plain⟩)))
+      else .go (.expr e) st
     | .record _ fields base =>
       -- lib.rs:658-676
-      visitVariant pos fuel (selectSpanned Variant.span pos (recordVariants fields base)).2 st
-    | .lambda _ args body =>
+      .go (.variant (selectSpanned Variant.span pos (recordVariants fields base)).2) st
+    | .lambda sp args body =>
       -- lib.rs:677-693
-      let st := addScope st (args.map Arg.id)
+      let st := hook fx pos st sp (args.map Arg.id)
       match selectSpanned Arg.sp pos args with
-      | (false, some a) => .ok (setFound st (.found ⟨.ident, a.sp, .plain⟩))
-      | _ => visitExpr pos fuel body st
+      | (false, some a) => .done (.ok (setFound st (.found ⟨.ident, a.sp, .plain⟩)))
+      | _ => .go (.expr body) st
     | .annotated _ e =>
-      -- lib.rs:733 (since fix 97c12b9; before: `unimplemented!()`)
-      visitExpr pos fuel e st
-    | .error _ => .ok st
-end
+      -- lib.rs:733 (since the `Annotated` fix; before: `unimplemented!()`)
+      .go (.expr e) st
+    | .error _ => .done (.ok st)
+
+/-- The descent: `step` iterated. Every `visit_*` call is a tail call, so the recursion of the
+    Rust code is exactly this loop; the explicit fuel bounds the number of calls. -/
+def run (fx : Bool) (pos : Nat) : Nat → Node → St → Out
+  | 0, _, _ => .fuel
+  | fuel + 1, n, st =>
+    match step fx pos n st with
+    | .done o => o
+    | .go n' st' => run fx pos fuel n' st'
+
+/-- lib.rs:410 `visit_pattern`. -/
+def visitPat (fx : Bool) (pos fuel : Nat) (p : Pat) (st : St) : Out := run fx pos fuel (.pat p) st
+/-- lib.rs:346 `visit_any` after the selection. -/
+def visitVariant (fx : Bool) (pos fuel : Nat) (v : Option Variant) (st : St) : Out :=
+  run fx pos fuel (.variant v) st
+/-- lib.rs:505 `visit_expr`. -/
+def visitExpr (fx : Bool) (pos fuel : Nat) (e : Expr) (st : St) : Out := run fx pos fuel (.expr e) st
 
 /-- lib.rs:785 `complete_at`: `enclosing_matches` starts with the root. -/
-def complete (pos : Nat) (fuel : Nat) (root : Expr) : Out :=
-  visitExpr pos fuel root ⟨.notFound, [root.m], [], []⟩
+def completeWith (fx : Bool) (pos : Nat) (fuel : Nat) (root : Expr) : Out :=
+  visitExpr fx pos fuel root ⟨.notFound, [root.m], [], []⟩
+
+/-- The code as it is. -/
+def complete (pos : Nat) (fuel : Nat) (root : Expr) : Out := completeWith false pos fuel root
 
 /-! ### Suggestions (`SuggestionQuery { prefix_filter: false, .. }`, no globals, no types) -/
 
@@ -358,7 +391,7 @@ def suggest (st : St) : Sugg :=
   | _, [] => .names []            -- unreachable: the root is always there
   | f, last :: _ =>
     if last.tag = .record then .skip else
-    let all := Sugg.names (dedup st.scope)
+    let all := Sugg.names (dedup (st.scope.map Prod.fst))
     match f with
     | .notFound => .names []
     | .empty => if last.kind = .pattern then .names [] else all
@@ -370,6 +403,62 @@ def suggest (st : St) : Sugg :=
         if last.kind = .pattern then .names []
         else if last.tag = .proj then .skip
         else all
+
+/-! ### Fuel-free search -/
+
+/-- Height of a pattern = fuel `visit_pattern` needs. -/
+def Pat.height : Pat → Nat
+  | .leaf _ _ => 1
+  | .tuple _ ps => heightList ps + 1
+  | .ctor _ _ ps => heightList ps + 1
+  | .as_ _ _ p => p.height + 1
+where
+  heightList : List Pat → Nat
+    | [] => 0
+    | p :: ps => max p.height (heightList ps)
+
+mutual
+/-- Height of an expression = fuel `visit_expr` needs (`visit_any` costs one step of its own). -/
+def Expr.height : Expr → Nat
+  | .leaf _ => 1
+  | .emptyNode _ => 1
+  | .error _ => 1
+  | .one _ cs => hList cs + 1
+  | .infix _ l _ r => max l.height r.height + 1
+  | .proj _ e => e.height + 1
+  | .annotated _ e => e.height + 1
+  | .lambda _ _ b => b.height + 1
+  | .letb _ _ bs b => max (hBinds bs + 1) b.height + 1
+  | .matchE _ s alts => max s.height (hAlts alts) + 1
+  | .record _ fs base => max (hFields fs) (match base with | none => 0 | some b => b.height) + 2
+def hList : List Expr → Nat
+  | [] => 0
+  | e :: es => max e.height (hList es)
+def hBinds : List LBind → Nat
+  | [] => 0
+  | .mk n _ e :: bs => max (max n.height e.height) (hBinds bs)
+def hAlts : List Alt → Nat
+  | [] => 0
+  | .mk p e :: as => max (max p.height e.height) (hAlts as)
+def hFields : List Field → Nat
+  | [] => 0
+  | .mk _ none :: fs => hFields fs
+  | .mk _ (some e) :: fs => max e.height (hFields fs)
+end
+
+def Node.height : Node → Nat
+  | .expr e => e.height
+  | .pat p => p.height
+  | .variant (some (.pat p)) => p.height + 1
+  | .variant (some (.expr e)) => e.height + 1
+  | .variant _ => 1
+
+/-- The position search as a function of the tree alone (fuel = height; by
+    `fuel_sufficient`/`fuel_irrelevant` any larger fuel gives the same answer). -/
+def findWith (fx : Bool) (pos : Nat) (root : Expr) : Out := completeWith fx pos root.height root
+
+/-- `complete_at` of the code as it is. -/
+def findAt (pos : Nat) (root : Expr) : Out := findWith false pos root
 
 /-! ### The shape the AST constructors guarantee -/
 
